@@ -8,7 +8,7 @@ from ..core import CaseTimeout, case_timeout
 from ..embellish import embellish
 from ..gen_expr import Gen
 
-N_CASES = {"quick": 300, "thorough": 300000}
+N_CASES = {"quick": 700, "thorough": 300000}
 TIME_BUDGET = {"quick": 60, "thorough": 270}
 META = {
     "rule": "generated queries (C02 generator, function/method/mixed form) with 0-8 MetaData wrappers inserted at random: "
